@@ -240,23 +240,23 @@ def forest_alt_keys(d):
     (node key, production, child node keys) with node key = (symbol, leaf span)
     where the leaf span is (first leaf start, last leaf end) or ('e', position)
     for an empty yield."""
-    span = []
+    span = []       # span of a node when used as a child (its first alternative's)
+    alt_span = []   # span of every alternative (differs inside the merged root of prefix forests)
     for alts in d.nodes:
-        sp = None
+        sps = []
         for a in alts:
             if a[0] == 0:
-                sp = (a[2], a[3])
+                sps.append((a[2], a[3]))
             else:
                 ne = [span[c] for c in a[4] if span[c][0] != "e"]
-                sp = (ne[0][0], ne[-1][1]) if ne else ("e", a[2])
-            break
-        span.append(sp)
+                sps.append((ne[0][0], ne[-1][1]) if ne else ("e", a[2]))
+        alt_span.append(sps)
+        span.append(sps[0] if sps else None)
     keys = set()
     for i, alts in enumerate(d.nodes):
-        nk = (d.syms[i], span[i])
-        for a in alts:
+        for a, sp in zip(alts, alt_span[i]):
             if a[0] == 1:
-                keys.add((nk, a[1], tuple((d.syms[c], span[c]) for c in a[4])))
+                keys.add(((d.syms[i], sp), a[1], tuple((d.syms[c], span[c]) for c in a[4])))
     return keys, span
 
 
